@@ -1076,6 +1076,11 @@ class Config:  # pylint: disable=too-many-instance-attributes
             # both Schema and ConfigTypeField implement __call__, which will return a Config object
             cfg = field(self)
             cfg._key = key
+            previous = self._data.get(key)
+            if isinstance(previous, Config) and previous.__keyfile and not cfg.__keyfile:
+                # the sub-configuration being replaced named its own key file: its secrets were
+                # encrypted with that key, so the new sub-configuration keeps using it
+                cfg.__keyfile = previous.__keyfile
             cfg.load_tree(value)  # load_tree will raise a ValidationError on error
             value = cfg
         else:
